@@ -434,7 +434,8 @@ TABLE["C09"] = [
 TABLE["C09"] += [C01_HIST_PAIRED]
 PROPERTY_META["C09"] = {
     "claim": "v7 <= every v6 and == min v6; v6 <= every v5 and == min v5 — for every evaluator with the S5 facts, all slot orders",
-    "outside": "as C02 (S5 abstraction of the five-card evaluator)",
+    "outside": "as C02 (S5 abstraction of the five-card evaluator); the S5 assumption that the real five-card evaluator is a function of its cards is itself "
+               "checked on the real code for call histories of length 2 (c01_five_history_distinct: table path, C01 thorough; c01_five_history_paired: product path, thorough tier here)",
     "assumptions": COMMON_ASSUME + S5NOTE,
 }
 # C06: add the wiring of hand_rank()/hand_rank_validated() to the value, and the real-evaluator link cards -> class
